@@ -91,6 +91,18 @@ def programs(ctx):
                     ("recv-fn-try", "func wq() {\n cq = make(chan int64)\n return <-cq\n}\ntry {\n wq()\n} catch e {\n}"), ("spin-fn-try-finally", "func wq() {\n for {\n }\n}\ntry {\n wq()\n} catch e {\n} finally {\n}"),
                     ("recv-nilco-in-fn", "func wq() {\n cq = make(chan int64)\n return (<-cq) ?? 1\n}\nwq()"), ("send-fn-nilco", "func wq() {\n cq = make(chan int64)\n cq <- 1\n}\nzq = wq() ?? 5")):
         out.append({"id": "%s|last" % nm, "src": src, "pre": "", "threads": 0})
+    # a statement with several targets whose LATER target spins: the interruption of that target is the statement's outcome (nothing after it polls)
+    spin = "func sq() {\n for {\n }\n return 0\n}\nmq = {}\nlq = [1, 2]\n"
+    for nm, src in (("recvok-target", "cq = make(chan int64, 1)\ncq <- 1\nnv, mq[sq()] = <-cq"), ("recvok-target-closed", "cq = make(chan int64, 1)\nclose(cq)\nnv, mq[sq()] = <-cq"),
+                    ("recvok-first-target", "cq = make(chan int64, 1)\ncq <- 1\nmq[sq()], okq = <-cq"), ("multi-target", "nv, mq[sq()] = 1, 2"), ("multi-target-first", "mq[sq()], nv = 1, 2"),
+                    ("mapok-target", "nv, mq[sq()] = mq[\"k\"]"), ("elem-target", "lq[sq()] = 5"), ("member-target-fn", "mq.k = sq()"), ("opassign-target", "lq[sq()] += 1"),
+                    ("delete-key", "delete(mq, sq())"), ("close-arg", "close(sq())"), ("send-value", "cq = make(chan int64, 1)\ncq <- sq()"), ("var-target", "var av, bv = 1, sq()"),
+                    ("throw-value", "throw sq()"), ("return-value", "return 1, sq()"), ("make-size", "make([]int64, sq())"), ("len-arg", "len(sq())"), ("in-right", "1 in sq()"), ("slice-bound", "lq[0:sq()]"),
+                    ("tern-cond", "sq() ? 1 : 2"), ("switch-case", "switch 1 {\ncase sq():\n 1\n}"), ("if-cond", "if sq() {\n}"), ("forin-iterable", "for xq in sq() {\n}"), ("map-literal", "{\"a\": sq()}"),
+                    ("list-literal", "[1, sq()]"), ("typed-literal", "[]int64{1, sq()}"), ("spread-arg", "p(sq()...)"), ("go-arg", "go p(sq())"), ("defer-arg", "defer p(sq())"), ("addr", "&sq()"), ("unary", "-sq()"), ("deref", "*sq()"),
+                    ("module-body", "module zq {\n sq()\n}"), ("nilco-right", "nil ?? sq()"), ("incr-elem", "lq[sq()]++")):
+        out.append({"id": "target-%s|last" % nm, "src": spin + src, "pre": "", "threads": 0})
+        out.append({"id": "target-%s|try-last" % nm, "src": spin + "try {\n%s\n} catch e {\n p(50)\n}" % ind(src), "pre": "", "threads": 0})
     # constructs that an EARLIER run (plain Execute, background context) has already evaluated once without waiting -- whatever the interpreter
     # remembers per tree node from that run -- and in which the cancellable run then spins or blocks
     rerun = [("recv", "func xr(ch) {\n return <-ch\n}\nc0 = make(chan int64, 1)\nc0 <- 1\nxr(c0)", "cq = make(chan int64)\np(1)\nxq = xr(cq)"),
